@@ -11,6 +11,7 @@ import (
 	"net/http"
 	"net/url"
 	"os"
+	"path/filepath"
 	"strings"
 	"syscall"
 
@@ -29,6 +30,8 @@ type recCase struct {
 	Kind   string   `json:"kind"`                                       // string | error | runtime | struct | int | abort | dep | nilerr | neterr-* | slice | map | structslice | sliceerr (values of uncomparable types)
 	Accept string   `json:"accept,omitempty"`                           // request header: the body of the error response does not depend on it
 	Buffer bool     `json:"buffering_writer_in_front,omitempty"`        // the first middleware (before Recovery) substitutes the http.ResponseWriter service by a buffer and releases it after Next(); Kind may also be nilerr (an error value whose Error method cannot run)
+	Method string   `json:"method,omitempty"`                           // GET (default) | HEAD: the error response of a HEAD request has the same status and no body
+	Deep   int      `json:"frames_below_the_panic,omitempty"`           // the panicking handler recurses this deep before it panics (the stack Recovery prints is that much longer)
 	Inner  bool     `json:"second_recovery_nearer_the_panic,omitempty"` // a second Recovery sits after the mid handlers, with one more Next()-calling middleware between the two: the panic stops at the inner one, so that middleware (placed before a Recovery) completes as well
 	Marker string   `json:"marker"`                                     // unique text carried by the panic value
 	Seq    []string `json:"seq"`                                        // ok | panic …
@@ -89,9 +92,27 @@ func init() {
 		old := flamego.Env()
 		flamego.SetEnv(flamego.EnvType(c.Env))
 		defer flamego.SetEnv(old)
+		defer c15EnterDir()()
 		w.Begin("recovery", &c)
 		judgeRec(w, &c)
 	}})
+}
+
+// c15EnterDir: positions given by a //line directive with a relative file name are looked up relative to the
+// working directory. The process works in a scratch directory that holds a one-line c15_short.txt, the file the
+// directive in c15_linedir.go names (with line 4000).
+func c15EnterDir() func() {
+	old, _ := os.Getwd()
+	dir, err := os.MkdirTemp("", "verif-c15-")
+	if err != nil {
+		return func() {}
+	}
+	_ = os.WriteFile(filepath.Join(dir, "c15_short.txt"), []byte("one line only\n"), 0o644)
+	_ = os.Chdir(dir)
+	return func() {
+		_ = os.Chdir(old)
+		_ = os.RemoveAll(dir)
+	}
 }
 
 func genRecCase(rng *rand.Rand, env string) *recCase {
@@ -101,7 +122,21 @@ func genRecCase(rng *rand.Rand, env string) *recCase {
 	}
 	c.Where = []string{"route", "route", "action", "notfound", "group"}[rng.Intn(5)]
 	c.Phase = []string{"before", "before", "after-header", "after-body"}[rng.Intn(4)]
-	c.Kind = []string{"string", "error", "runtime", "struct", "int", "abort", "dep", "nilerr", "neterr-epipe", "neterr-reset", "slice", "map", "structslice", "sliceerr", "bad-status-writeheader", "bad-status-return", "before-function-panics"}[rng.Intn(17)]
+	c.Kind = []string{"string", "error", "runtime", "struct", "int", "abort", "dep", "nilerr", "neterr-epipe", "neterr-reset", "slice", "map", "structslice", "sliceerr", "bad-status-writeheader", "bad-status-return", "before-function-panics", "long-cjk", "line-directive"}[rng.Intn(19)]
+	c.Method = []string{"GET", "GET", "GET", "HEAD"}[rng.Intn(4)]
+	switch x := rng.Intn(200); {
+	case x == 0:
+		c.Deep = 3000
+	case x < 8:
+		c.Deep = 300
+	case x < 16:
+		c.Deep = 100
+	}
+	if rng.Intn(80) == 0 {
+		for i := 40 + rng.Intn(40); i > 0; i-- {
+			c.Mid = append(c.Mid, "next") // a long onion of Next() calls between Recovery and the panic
+		}
+	}
 	c.Inner = rng.Intn(5) == 0
 	if rng.Intn(6) == 0 {
 		// a buffering middleware in front of Recovery; nothing else writes, the panic comes before any write
@@ -200,11 +235,20 @@ func recVerdict(c *recCase, o recObs) string {
 	if o.status != wantStatus {
 		return fmt.Sprintf("status %d, want %d (500 iff nothing had been sent before the panic)", o.status, wantStatus)
 	}
-	if !strings.HasPrefix(o.body, prefix) {
+	if c.Method == "HEAD" {
+		if o.body != "" {
+			return fmt.Sprintf("HEAD request: body %q was forwarded", clip(o.body))
+		}
+		prefix = ""
+		o.body = ""
+	}
+	if c.Method != "HEAD" && !strings.HasPrefix(o.body, prefix) {
 		return fmt.Sprintf("body %q lost what had been written before the panic (%q)", clip(o.body), prefix)
 	}
 	rest := o.body[len(prefix):]
-	if c.Env == "development" {
+	if c.Method == "HEAD" {
+		// nothing of the page can be seen
+	} else if c.Env == "development" {
 		if !strings.Contains(rest, c.markerOf()) {
 			return fmt.Sprintf("development mode: panic detail %q missing from the body %q", c.markerOf(), clip(rest))
 		}
@@ -383,6 +427,10 @@ func judgeRec(w *core.W, c *recCase) {
 			panic(n)
 		case "abort":
 			panic(http.ErrAbortHandler)
+		case "long-cjk":
+			panic(strings.Repeat("\u754c", 120) + c.Marker) // more than 256 bytes, fewer than 256 characters
+		case "line-directive":
+			c15PanicFarLine(c.Marker) // compiled under a //line directive that points past the end of an existing file
 		case "bad-status-writeheader":
 			ctx.ResponseWriter().WriteHeader(42) // the underlying writer panics, as net/http's does; nothing has been sent
 		case "before-function-panics":
@@ -405,6 +453,18 @@ func judgeRec(w *core.W, c *recCase) {
 			panic(&net.OpError{Op: "read", Net: "tcp", Err: os.NewSyscallError("read", syscall.ECONNRESET)})
 		}
 	}
+	if c.Deep > 0 {
+		inner := boom
+		var rec func(ctx flamego.Context, d int)
+		rec = func(ctx flamego.Context, d int) {
+			if d == 0 {
+				inner(ctx)
+				return
+			}
+			rec(ctx, d-1)
+		}
+		boom = func(ctx flamego.Context) { rec(ctx, c.Deep) }
+	}
 	var panicH flamego.Handler = boom
 	if c.Kind == "bad-status-return" {
 		panicH = func(ctx flamego.Context) (int, string) { boom(ctx); return 42, "never-sent" }
@@ -415,12 +475,12 @@ func judgeRec(w *core.W, c *recCase) {
 	target := "/p"
 	switch c.Where {
 	case "route":
-		f.Get("/p", panicH)
+		f.Routes("/p", "GET,HEAD", panicH)
 	case "group":
-		f.Group("/g", func() { f.Get("/p", func(ctx flamego.Context) { ctx.Next() }, panicH) }, filler)
+		f.Group("/g", func() { f.Routes("/p", "GET,HEAD", func(ctx flamego.Context) { ctx.Next() }, panicH) }, filler)
 		target = "/g/p"
 	case "action":
-		f.Get("/p", filler)
+		f.Routes("/p", "GET,HEAD", filler)
 		f.Action(panicH)
 	case "notfound":
 		f.NotFound(panicH)
@@ -445,7 +505,11 @@ func judgeRec(w *core.W, c *recCase) {
 				hdr.Set("Accept", c.Accept)
 				hdr.Set("X-Requested-With", "XMLHttpRequest")
 			}
-			f.ServeHTTP(c15Strict{spy}, &http.Request{Method: "GET", URL: &url.URL{Path: path}, Header: hdr, RequestURI: path})
+			meth := "GET"
+			if c.Method == "HEAD" && path != "/ok" {
+				meth = "HEAD"
+			}
+			f.ServeHTTP(c15Strict{spy}, &http.Request{Method: meth, URL: &url.URL{Path: path}, Header: hdr, RequestURI: path})
 		}()
 		o.status, o.body, o.events = spy.status, string(spy.body), events
 		return o
@@ -495,6 +559,12 @@ func judgeRec(w *core.W, c *recCase) {
 	if c.Inner {
 		w.Count("second-recovery-nearer-the-panic")
 	}
+	if c.Method == "HEAD" {
+		w.Count("method:HEAD")
+	}
+	if c.Deep >= 300 || len(c.Mid) >= 40 {
+		w.Count("deep-stack")
+	}
 	w.Count("phase:" + c.Phase)
 	w.Count("where:" + c.Where)
 	w.Count("depth:" + nested)
@@ -503,9 +573,10 @@ func judgeRec(w *core.W, c *recCase) {
 }
 
 func runC15(r *core.Run) {
-	r.Rule("chains with 0-2 middleware before Recovery, 0-3 handlers between Recovery and the panic site (plain / calling Next / writing then calling Next), panic site in a route handler, a grouped route reached through Next, the action, or the not-found chain; phases before any write / after the status / after body bytes; panic values string, error, runtime error, struct, int, http.ErrAbortHandler, values of uncomparable types (slice, map, struct with a slice, slice-typed error), and an unresolvable dependency; one case in five with a second Recovery nearer the panic and a Next()-calling middleware between the two; request sequences mixing healthy and panicking requests on one instance; the three environments in sequential phases (the environment is process-global), plus serial cases assembled under one environment and served under another. Oracle: nothing reaches recover() around ServeHTTP; status 500 iff nothing sent before, else the first status; body = bytes written before the panic + detail (development) or generic text; outer middleware completes after Next(); healthy follow-up requests equal their pre-panic baseline. non-trivial = distinct (environment, value kind, phase, site, nesting, chain shape)")
+	r.Rule("chains with 0-2 middleware before Recovery, 0-3 handlers between Recovery and the panic site (plain / calling Next / writing then calling Next), panic site in a route handler, a grouped route reached through Next, the action, or the not-found chain; phases before any write / after the status / after body bytes; GET and HEAD requests; the panicking handler 0-3000 frames deep, onions of 40-80 Next() calls; a panic raised under a //line directive that points past the end of an existing file; a message of 120 CJK characters; panics raised by the underlying writer (which refuses status codes outside 100..999 as net/http does) and by before-functions; panic values string, error, runtime error, struct, int, http.ErrAbortHandler, values of uncomparable types (slice, map, struct with a slice, slice-typed error), and an unresolvable dependency; one case in five with a second Recovery nearer the panic and a Next()-calling middleware between the two; request sequences mixing healthy and panicking requests on one instance; the three environments in sequential phases (the environment is process-global), plus serial cases assembled under one environment and served under another. Oracle: nothing reaches recover() around ServeHTTP; status 500 iff nothing sent before, else the first status; body = bytes written before the panic + detail (development) or generic text; outer middleware completes after Next(); healthy follow-up requests equal their pre-panic baseline. non-trivial = distinct (environment, value kind, phase, site, nesting, chain shape)")
 	r.Assume("panics are raised in handlers after Recovery; Recovery logs to io.Discard")
 	c15Canaries(r)
+	defer c15EnterDir()()
 	orig := flamego.Env()
 	defer flamego.SetEnv(orig)
 	n := r.N(6000, 600000)
@@ -531,7 +602,7 @@ func runC15(r *core.Run) {
 	ws.Done()
 	ws.Merge()
 	flamego.SetEnv(orig)
-	for _, k := range []string{"environment-switched-after-assembly", "kind:string", "kind:error", "kind:runtime", "kind:struct", "kind:int", "kind:abort", "kind:dep", "kind:nilerr", "kind:neterr-epipe", "kind:neterr-reset", "kind:slice", "kind:map", "kind:structslice", "kind:sliceerr", "kind:bad-status-writeheader", "kind:bad-status-return", "kind:before-function-panics", "second-recovery-nearer-the-panic", "request-context-cancelled-while-unwinding", "buffering-writer-in-front-of-recovery", "phase:before", "phase:after-header", "phase:after-body", "where:route", "where:group", "where:action", "where:notfound", "depth:flat", "depth:nested-next", "follow-up-requests"} {
+	for _, k := range []string{"environment-switched-after-assembly", "kind:string", "kind:error", "kind:runtime", "kind:struct", "kind:int", "kind:abort", "kind:dep", "kind:nilerr", "kind:neterr-epipe", "kind:neterr-reset", "kind:slice", "kind:map", "kind:structslice", "kind:sliceerr", "kind:bad-status-writeheader", "kind:bad-status-return", "kind:before-function-panics", "kind:long-cjk", "kind:line-directive", "method:HEAD", "deep-stack", "second-recovery-nearer-the-panic", "request-context-cancelled-while-unwinding", "buffering-writer-in-front-of-recovery", "phase:before", "phase:after-header", "phase:after-body", "where:route", "where:group", "where:action", "where:notfound", "depth:flat", "depth:nested-next", "follow-up-requests"} {
 		r.GateCounter(k, 100)
 	}
 	r.Gate("distinct_nontrivial", r.NonTrivialCount(), 1000)
